@@ -57,9 +57,17 @@ let () =
                mismatch "chunks" rhs (Printf.sprintf "%s %d" me (List.length !chunks));
              pending_chunk_lines := List.map chunk_line !chunks
          | _ -> failwith "bad RC")
-    | "C" :: _ ->
+    | "C" :: toks ->
+        (* the metadata document is compared through the model's decoder/encoder (array
+           index keys are not part of the model's value type) *)
+        let canon l = match l with
+          | np :: nm :: meta :: rest when meta <> "-" ->
+              (match dec_doc (bytes_of_hex meta) with
+               | Some (d, []) -> String.concat " " ("C" :: np :: nm :: hex_of_bytes (enc_doc d) :: rest)
+               | _ -> line)
+          | _ -> line in
         (match !pending_chunk_lines with
-         | m :: r -> pending_chunk_lines := r; if m <> line then mismatch "chunk" line m
+         | m :: r -> pending_chunk_lines := r; if m <> line && m <> canon toks then mismatch "chunk" line m
          | [] -> mismatch "chunk-extra" line "")
     | ["CF"] | ["RF"] ->
         let toks = split_ws rhs in
